@@ -9,7 +9,9 @@ import (
 	"errors"
 	"strings"
 	"sync"
+	"time"
 
+	jose "github.com/go-jose/go-jose/v4"
 	"github.com/zitadel/oidc/v3/pkg/oidc"
 	"github.com/zitadel/oidc/v3/pkg/op"
 )
@@ -27,6 +29,7 @@ func (s *Store) SetFaultErr(err error) {
 }
 
 func (s *Store) extFaultErr() error {
+	s.countFault() // called by enter, under s.mu, once per injected failure
 	if v, ok := faultErrs.Load(s); ok {
 		return v.(error)
 	}
@@ -128,4 +131,195 @@ var (
 	_ op.ClientCredentialsStorage           = MaxStorage{}
 	_ op.TokenExchangeStorage               = MaxStorage{}
 	_ op.DeviceAuthorizationStorage         = MaxStorage{}
+)
+
+// ---- KeepStorage (C10): a storage whose failing call has DONE ITS WORK before the failure is
+// reported (a commit whose acknowledgement timed out, a lookup that returns what it found together
+// with the error): every injected failure comes back with the results - and the side effects - of
+// the same call made fault free. Journal, call counter and fault plan are those of the failing call
+// only. The optional interfaces are those of AsStorage(true, true, true).
+
+var faultSeqs sync.Map // *Store -> *int64: number of injected failures so far (guarded by s.mu)
+
+func (s *Store) countFault() {
+	v, _ := faultSeqs.LoadOrStore(s, new(int64))
+	*(v.(*int64))++
+}
+
+func (s *Store) faultSeq() int64 {
+	s.mu.Lock()
+	defer s.mu.Unlock()
+	if v, ok := faultSeqs.Load(s); ok {
+		return *(v.(*int64))
+	}
+	return 0
+}
+
+// redo runs f with fault injection off and leaves journal, counter and plan as they were.
+func (s *Store) redo(f func()) {
+	s.mu.Lock()
+	calls, jl, at, m, hit := s.calls, len(s.Journal), s.FaultAt, s.FaultMethod, s.FaultHit
+	s.FaultAt, s.FaultMethod = 0, ""
+	s.mu.Unlock()
+	defer func() {
+		s.mu.Lock()
+		s.calls, s.Journal, s.FaultAt, s.FaultMethod, s.FaultHit = calls, s.Journal[:jl], at, m, hit
+		s.mu.Unlock()
+	}()
+	f()
+}
+
+func keep0(s *Store, f func() error) error {
+	n := s.faultSeq()
+	err := f()
+	if s.faultSeq() != n {
+		s.redo(func() { _ = f() })
+	}
+	return err
+}
+
+func keep1[A any](s *Store, f func() (A, error)) (A, error) {
+	n := s.faultSeq()
+	a, err := f()
+	if s.faultSeq() != n {
+		s.redo(func() { a, _ = f() })
+	}
+	return a, err
+}
+
+func keep2[A, B any](s *Store, f func() (A, B, error)) (A, B, error) {
+	n := s.faultSeq()
+	a, b, err := f()
+	if s.faultSeq() != n {
+		s.redo(func() { a, b, _ = f() })
+	}
+	return a, b, err
+}
+
+func keep3[A, B, C any](s *Store, f func() (A, B, C, error)) (A, B, C, error) {
+	n := s.faultSeq()
+	a, b, c, err := f()
+	if s.faultSeq() != n {
+		s.redo(func() { a, b, c, _ = f() })
+	}
+	return a, b, c, err
+}
+
+type KeepStorage struct{ s *Store }
+
+// AsKeepStorage: see KeepStorage.
+func (s *Store) AsKeepStorage() op.Storage { return KeepStorage{s} }
+
+func (k KeepStorage) CreateAuthRequest(ctx context.Context, req *oidc.AuthRequest, userID string) (op.AuthRequest, error) {
+	return keep1(k.s, func() (op.AuthRequest, error) { return k.s.CreateAuthRequest(ctx, req, userID) })
+}
+func (k KeepStorage) AuthRequestByID(ctx context.Context, id string) (op.AuthRequest, error) {
+	return keep1(k.s, func() (op.AuthRequest, error) { return k.s.AuthRequestByID(ctx, id) })
+}
+func (k KeepStorage) AuthRequestByCode(ctx context.Context, code string) (op.AuthRequest, error) {
+	return keep1(k.s, func() (op.AuthRequest, error) { return k.s.AuthRequestByCode(ctx, code) })
+}
+func (k KeepStorage) SaveAuthCode(ctx context.Context, id, code string) error {
+	return keep0(k.s, func() error { return k.s.SaveAuthCode(ctx, id, code) })
+}
+func (k KeepStorage) DeleteAuthRequest(ctx context.Context, id string) error {
+	return keep0(k.s, func() error { return k.s.DeleteAuthRequest(ctx, id) })
+}
+func (k KeepStorage) CreateAccessToken(ctx context.Context, request op.TokenRequest) (string, time.Time, error) {
+	return keep2(k.s, func() (string, time.Time, error) { return k.s.CreateAccessToken(ctx, request) })
+}
+func (k KeepStorage) CreateAccessAndRefreshTokens(ctx context.Context, request op.TokenRequest, current string) (string, string, time.Time, error) {
+	return keep3(k.s, func() (string, string, time.Time, error) {
+		return k.s.CreateAccessAndRefreshTokens(ctx, request, current)
+	})
+}
+func (k KeepStorage) TokenRequestByRefreshToken(ctx context.Context, refreshToken string) (op.RefreshTokenRequest, error) {
+	return keep1(k.s, func() (op.RefreshTokenRequest, error) { return k.s.TokenRequestByRefreshToken(ctx, refreshToken) })
+}
+func (k KeepStorage) TerminateSession(ctx context.Context, userID, clientID string) error {
+	return keep0(k.s, func() error { return k.s.TerminateSession(ctx, userID, clientID) })
+}
+func (k KeepStorage) GetRefreshTokenInfo(ctx context.Context, clientID, token string) (string, string, error) {
+	return keep2(k.s, func() (string, string, error) { return k.s.GetRefreshTokenInfo(ctx, clientID, token) })
+}
+func (k KeepStorage) RevokeToken(ctx context.Context, tokenIDOrToken, userID, clientID string) *oidc.Error {
+	n := k.s.faultSeq()
+	e := k.s.RevokeToken(ctx, tokenIDOrToken, userID, clientID)
+	if k.s.faultSeq() != n {
+		k.s.redo(func() { _ = k.s.RevokeToken(ctx, tokenIDOrToken, userID, clientID) })
+	}
+	return e
+}
+func (k KeepStorage) SigningKey(ctx context.Context) (op.SigningKey, error) {
+	return keep1(k.s, func() (op.SigningKey, error) { return k.s.SigningKey(ctx) })
+}
+func (k KeepStorage) SignatureAlgorithms(ctx context.Context) ([]jose.SignatureAlgorithm, error) {
+	return keep1(k.s, func() ([]jose.SignatureAlgorithm, error) { return k.s.SignatureAlgorithms(ctx) })
+}
+func (k KeepStorage) KeySet(ctx context.Context) ([]op.Key, error) {
+	return keep1(k.s, func() ([]op.Key, error) { return k.s.KeySet(ctx) })
+}
+func (k KeepStorage) GetClientByClientID(ctx context.Context, clientID string) (op.Client, error) {
+	return keep1(k.s, func() (op.Client, error) { return k.s.GetClientByClientID(ctx, clientID) })
+}
+func (k KeepStorage) AuthorizeClientIDSecret(ctx context.Context, clientID, clientSecret string) error {
+	return keep0(k.s, func() error { return k.s.AuthorizeClientIDSecret(ctx, clientID, clientSecret) })
+}
+func (k KeepStorage) SetUserinfoFromScopes(ctx context.Context, ui *oidc.UserInfo, userID, clientID string, scopes []string) error {
+	return keep0(k.s, func() error { return k.s.SetUserinfoFromScopes(ctx, ui, userID, clientID, scopes) })
+}
+func (k KeepStorage) SetUserinfoFromToken(ctx context.Context, ui *oidc.UserInfo, tokenID, subject, origin string) error {
+	return keep0(k.s, func() error { return k.s.SetUserinfoFromToken(ctx, ui, tokenID, subject, origin) })
+}
+func (k KeepStorage) SetIntrospectionFromToken(ctx context.Context, resp *oidc.IntrospectionResponse, tokenID, subject, clientID string) error {
+	return keep0(k.s, func() error { return k.s.SetIntrospectionFromToken(ctx, resp, tokenID, subject, clientID) })
+}
+func (k KeepStorage) GetPrivateClaimsFromScopes(ctx context.Context, userID, clientID string, scopes []string) (map[string]any, error) {
+	return keep1(k.s, func() (map[string]any, error) { return k.s.GetPrivateClaimsFromScopes(ctx, userID, clientID, scopes) })
+}
+func (k KeepStorage) GetKeyByIDAndClientID(ctx context.Context, keyID, clientID string) (*jose.JSONWebKey, error) {
+	return keep1(k.s, func() (*jose.JSONWebKey, error) { return k.s.GetKeyByIDAndClientID(ctx, keyID, clientID) })
+}
+func (k KeepStorage) ValidateJWTProfileScopes(ctx context.Context, userID string, scopes []string) ([]string, error) {
+	return keep1(k.s, func() ([]string, error) { return k.s.ValidateJWTProfileScopes(ctx, userID, scopes) })
+}
+func (k KeepStorage) Health(ctx context.Context) error {
+	return keep0(k.s, func() error { return k.s.Health(ctx) })
+}
+func (k KeepStorage) SetUserinfoFromRequest(ctx context.Context, ui *oidc.UserInfo, req op.IDTokenRequest, scopes []string) error {
+	return keep0(k.s, func() error { return k.s.SetUserinfoFromRequest(ctx, ui, req, scopes) })
+}
+func (k KeepStorage) ClientCredentials(ctx context.Context, clientID, clientSecret string) (op.Client, error) {
+	return keep1(k.s, func() (op.Client, error) { return CC{k.s}.ClientCredentials(ctx, clientID, clientSecret) })
+}
+func (k KeepStorage) ClientCredentialsTokenRequest(ctx context.Context, clientID string, scopes []string) (op.TokenRequest, error) {
+	return keep1(k.s, func() (op.TokenRequest, error) { return CC{k.s}.ClientCredentialsTokenRequest(ctx, clientID, scopes) })
+}
+func (k KeepStorage) ValidateTokenExchangeRequest(ctx context.Context, request op.TokenExchangeRequest) error {
+	return keep0(k.s, func() error { return TE{k.s}.ValidateTokenExchangeRequest(ctx, request) })
+}
+func (k KeepStorage) CreateTokenExchangeRequest(ctx context.Context, request op.TokenExchangeRequest) error {
+	return keep0(k.s, func() error { return TE{k.s}.CreateTokenExchangeRequest(ctx, request) })
+}
+func (k KeepStorage) GetPrivateClaimsFromTokenExchangeRequest(ctx context.Context, request op.TokenExchangeRequest) (map[string]any, error) {
+	return keep1(k.s, func() (map[string]any, error) { return TE{k.s}.GetPrivateClaimsFromTokenExchangeRequest(ctx, request) })
+}
+func (k KeepStorage) SetUserinfoFromTokenExchangeRequest(ctx context.Context, ui *oidc.UserInfo, request op.TokenExchangeRequest) error {
+	return keep0(k.s, func() error { return TE{k.s}.SetUserinfoFromTokenExchangeRequest(ctx, ui, request) })
+}
+func (k KeepStorage) StoreDeviceAuthorization(ctx context.Context, clientID, deviceCode, userCode string, expires time.Time, scopes []string) error {
+	return keep0(k.s, func() error {
+		return Dev{k.s}.StoreDeviceAuthorization(ctx, clientID, deviceCode, userCode, expires, scopes)
+	})
+}
+func (k KeepStorage) GetDeviceAuthorizatonState(ctx context.Context, clientID, deviceCode string) (*op.DeviceAuthorizationState, error) {
+	return keep1(k.s, func() (*op.DeviceAuthorizationState, error) { return Dev{k.s}.GetDeviceAuthorizatonState(ctx, clientID, deviceCode) })
+}
+
+var (
+	_ op.Storage                    = KeepStorage{}
+	_ op.CanSetUserinfoFromRequest  = KeepStorage{}
+	_ op.ClientCredentialsStorage   = KeepStorage{}
+	_ op.TokenExchangeStorage       = KeepStorage{}
+	_ op.DeviceAuthorizationStorage = KeepStorage{}
 )
